@@ -273,7 +273,7 @@ func runC13(c *engine.Ctx) {
 	} else {
 		w := &signWorld{c: c, features: map[string]bool{}, yamlSafe: true, rich: p.Draw(2, "cfg:rich") == 1, allowOddKeys: true, oddSources: true}
 		o := &gen.Opts{T: p, Str: w.str, MaxSteps: 5, MaxDepth: 3, Unknown: true, ScalarStep: true, BareList: true, TopExtras: true, PipeEnv: true,
-			BigMaps: p.Draw(5, "cfg:bigmaps") == 4, Signature: true, TypeKey: true, Aliases: true, NonStrEnv: true, Timestamps: true, ShareSubtrees: p.Draw(2, "cfg:share") == 1, LongPipelines: true, BadStepEntries: true, BothCommandKeys: true, DeepNesting: true}
+			BigMaps: p.Draw(5, "cfg:bigmaps") == 4, Signature: true, TypeKey: true, Aliases: true, NonStrEnv: true, Timestamps: true, ShareSubtrees: p.Draw(2, "cfg:share") == 1, LongPipelines: true, BadStepEntries: true, BothCommandKeys: true, DeepNesting: true, PlainKeys: true}
 		doc := o.Pipeline()
 		pristine, baseName = gen.RenderMaybeMerged(p, doc, true)
 		baseName = "generated." + baseName
